@@ -1,7 +1,11 @@
-(* C06 -- JSON Schema normalisation preserves acceptance: the keyword-level laws proved so far.
-   (The end-to-end statement -- x accepted by S iff accepted by normalize(S) -- is decided by the validator oracle and
-   the model/implementation correspondence; the laws below are the places where defects were found and repaired.) *)
-From Fences Require Import Normalize NormShape JsonValid.
+(* C06 -- JSON Schema normalisation preserves acceptance.
+   End-to-end theorems (C06_fragment, C06_fragment_default, C06_fragment_exec): for every schema of the propositional-scalar fragment -- type, enum, the numeric /
+   length / item-count bounds, the normaliser's negated enum, combined by allOf, anyOf and not to any depth -- the any-of list
+   that the model of normalize() returns is satisfied by exactly the instances the schema accepts.  Outside the fragment
+   (properties, items, $ref, oneOf, if/then/else, const, multipleOf, "integer") the statement is decided by the validator
+   oracle and the model/implementation correspondence; the keyword-level laws below cover the places where defects were
+   found and repaired. *)
+From Fences Require Import Normalize NormShape JsonValid JsonFragB JsonSem JsonSemDnf JsonSemNorm JsonSemTop JsonSemBool.
 From Coq Require Import String ZArith.
 Local Open Scope list_scope.
 
@@ -71,3 +75,79 @@ Theorem C06_bool : forall SV cfg fuel b,
   normalize SV cfg fuel (JBool b) = Ok (if b then NORM_TRUE else NORM_FALSE).
 Proof. intros SV cfg fuel []; reflexivity. Qed.
 Print Assumptions C06_bool.
+
+(* ---------- the fragment, end to end ---------- *)
+(* one alternative: _merge of two keyword sets of the fragment (unique keys, well-typed values) is again such a set and is
+   satisfied exactly by the instances satisfying both; a key without merger on both sides makes _merge fail *)
+Theorem C06_merge_alternatives : forall a b r, galt a -> scalar_alt b -> merge2 a b = Ok r ->
+  galt r /\ forall x, (dvalid r x <-> dvalid a x /\ dvalid b x).
+Proof. exact merge2_scalar. Qed.
+Print Assumptions C06_merge_alternatives.
+
+(* _invert of one alternative: an any-of list satisfied exactly by the instances violating the alternative *)
+Theorem C06_invert_alternative : forall d, galt d ->
+  exists l', invert1 (JObj d) = Ok (dnf_of l') /\ Forall galt l' /\ forall x, alts_valid l' x <-> ~ dvalid d x.
+Proof. exact invert1_sem. Qed.
+Print Assumptions C06_invert_alternative.
+
+(* merge (full) multiplies any-of lists out: conjunction; invert: negation *)
+Theorem C06_merge_full : forall ls n, Forall (Forall galt) ls -> merge_full_ (map dnf_of ls) = Ok n ->
+  exists l, n = dnf_of l /\ Forall galt l /\ forall x, alts_valid l x <-> Forall (fun l' => alts_valid l' x) ls.
+Proof. exact merge_full_sem. Qed.
+Print Assumptions C06_merge_full.
+
+Theorem C06_invert : forall cfg l n, full_merge cfg = true -> Forall galt l -> invert cfg (dnf_of l) = Ok n ->
+  exists l', n = dnf_of l' /\ Forall galt l' /\ forall x, alts_valid l' x <-> ~ alts_valid l x.
+Proof. exact invert_sem. Qed.
+Print Assumptions C06_invert.
+
+(* _to_dnf, for every recursion budget f and nesting depth m *)
+Theorem C06_to_dnf_fragment : forall SV cfg, full_merge cfg = true ->
+  (forall k, In k (SK ++ CK) -> smem k (discard_fields cfg) = false) ->
+  forall f m s n, frag m s -> to_dnf SV cfg f s = Ok n ->
+  exists l, n = dnf_of l /\ Forall galt l /\ forall x, alts_valid l x <-> sem m x s.
+Proof. intros SV cfg FM DF f m s n Fs. exact (to_dnf_sem SV cfg FM DF f m s Fs n). Qed.
+Print Assumptions C06_to_dnf_fragment.
+
+(* normalize(): full merge, no duplicate detection, no keyword of the fragment among the discarded ones *)
+Theorem C06_fragment : forall SV cfg, full_merge cfg = true -> detect_dup cfg = false ->
+  (forall k, In k (SK ++ CK) -> smem k (discard_fields cfg) = false) ->
+  forall fuel m d n, frag m (JObj d) -> normalize SV cfg fuel (JObj d) = Ok n ->
+  exists L, any_of n = Ok (map JObj L) /\ Forall galt L /\ forall x, alts_valid L x <-> sem m x (JObj d).
+Proof. exact normalize_fragment. Qed.
+Print Assumptions C06_fragment.
+
+(* ... in particular the default configuration *)
+Theorem C06_fragment_default : forall SV fuel m d n, frag m (JObj d) ->
+  normalize SV (mkNConfig true default_discard false) fuel (JObj d) = Ok n ->
+  exists L, any_of n = Ok (map JObj L) /\ Forall galt L /\ forall x, alts_valid L x <-> sem m x (JObj d).
+Proof. exact normalize_fragment_default. Qed.
+Print Assumptions C06_fragment_default.
+
+(* The specification is executable: fragb decides membership in the fragment (soundly), semb evaluates acceptance;
+   both are extracted, and the C06 check compares semb with the reference validator on random documents of the
+   fragment, so that [sem] is tied to Draft 2020-12 and not only to this file. *)
+Theorem C06_spec_executable : forall f s, fragb f s = true -> frag f s /\ forall x, (semb f x s = true <-> sem f x s).
+Proof. intros f s H. pose proof (fragb_sound f s H) as F. split; [exact F|]. intros x. exact (semb_spec x f s F). Qed.
+Print Assumptions C06_spec_executable.
+
+Theorem C06_fragment_exec : forall SV fuel m d n, fragb m (JObj d) = true ->
+  normalize SV (mkNConfig true default_discard false) fuel (JObj d) = Ok n ->
+  exists L, any_of n = Ok (map JObj L) /\ forall x, alts_valid L x <-> semb m x (JObj d) = true.
+Proof. exact normalize_fragment_exec. Qed.
+Print Assumptions C06_fragment_exec.
+
+(* non-vacuity: {"type": ["number","string"], "minimum": 3, "anyOf": [{"maxLength": 2}, {"minimum": 10}], "not": {"enum": [5]}}
+   is in the fragment, normalize() returns, 12 is accepted, 5 and null are not *)
+Definition c06_doc : json :=
+  JObj [(kw "type", JArr [jstr "number"; jstr "string"]); (kw "minimum", JNum 3);
+        (kw "anyOf", JArr [JObj [(kw "maxLength", JNum 2)]; JObj [(kw "minimum", JNum 10)]]);
+        (kw "not", JObj [(kw "enum", JArr [JNum 5])])].
+Example C06_nonvacuous :
+  fragb 3 c06_doc = true /\
+  (exists n, normalize (mkSV true) (mkNConfig true default_discard false) 30 c06_doc = Ok n) /\
+  semb 3 (JNum 12) c06_doc = true /\ semb 3 (JNum 5) c06_doc = false /\ semb 3 JNull c06_doc = false.
+Proof.
+  split; [vm_compute; reflexivity|]. split; [eexists; vm_compute; reflexivity|].
+  split; [vm_compute; reflexivity|]. split; vm_compute; reflexivity.
+Qed.
